@@ -202,7 +202,8 @@ def make_cases(k, rng):
     for i, (label, pieces) in enumerate(docs):
         row = rows[i % len(rows)]
         cid += 1
-        cases.append(dict(row, id=cid, d=label, doc=pieces, limit=0))
+        # a chunked delivery gives 4 hook events per byte: every execution runs, one chunked execution in eight is trace-validated
+        cases.append(dict(row, id=cid, d=label, doc=pieces, limit=0, tr=(row["dl"] == "mem" or i % 8 == 0)))
     for label, pieces in ent:
         for lim in (0, 50, 1000) if not label.startswith("laughs") and label != "quad" else (50, 1000):
             for api in ("SAX2", "DOM", "SAX", "DOMLS"):
@@ -258,6 +259,7 @@ def run(out, tier):
     C.build_lib(VARIANT)
     exe = C.build_harness("reader_harness", variant=VARIANT)
     cov = out.coverage
+    os.makedirs(os.path.join(C.BUILD, "tlc"), exist_ok=True)
     tdir = tempfile.mkdtemp(prefix="c01.", dir=os.path.join(C.BUILD, "tlc"))
     try:
         t_pc = R._bg(C.tlc, "ParserCall", "ParserCall.cfg", workers=2, coverage=True, timeout=3000, heap="2g")
@@ -385,6 +387,7 @@ def replay(out, path):
     out.level = "exploration"
     C.build_lib(VARIANT)
     exe = C.build_harness("reader_harness", variant=VARIANT)
+    os.makedirs(os.path.join(C.BUILD, "tlc"), exist_ok=True)
     tdir = tempfile.mkdtemp(prefix="c01r.", dir=os.path.join(C.BUILD, "tlc"))
     try:
         if path.endswith(".ndjson"):
